@@ -208,7 +208,8 @@ def gen(rng, tier):
             yield {"op": "pv", "stream": "float", "p1": t[0], "p2": t[1], "v": [x / m * vs for x in v], "d": d}
 
     # fit_from_points -------------------------------------------------------------------------------
-    kinds = ["generic", "generic", "nearly-planar", "planar", "collinear", "lattice", "three", "lattice-planar", "two", "far-nearly-planar"]
+    kinds = ["generic", "generic", "nearly-planar", "planar", "collinear", "lattice", "three", "lattice-planar", "two", "far-nearly-planar",
+             "seam"]
     for i in range(n_fit):
         kind = kinds[i % len(kinds)]
         if i % 40 == 39:
@@ -501,6 +502,12 @@ def make_pv(spec):
 def cloud(spec):
     rng = random.Random(spec["seed"])
     kind, k = spec["kind"], spec["k"]
+    if kind == "seam":
+        # a loop of points exported with its first point repeated at the end: a cloud like any other (the repeated point counts
+        # twice in the centroid and in the scatter)
+        base = dict(spec, kind="generic", k=max(k - 1, 3))
+        Pn = cloud(base)
+        return np.vstack([Pn, Pn[:1]])
     if kind in ("lattice", "lattice-planar"):
         den = rng.choice([1, 1, 2, 4])
         pts = [gens.lat(rng, 5, den) for _ in range(k)]
@@ -731,9 +738,10 @@ def make_fn(spec):
     else:
         ln = Line("c13.fn.normal").b(nz).i(k).vec(T)
         le = Line("c13.fn.equation").i(k).vec(T)
-        cases.append(Case(spec, ln, lambda: [k] + flat(plane_normal_from_points(arg(), normalize=nz)), mode="both", trivial=trivial,
+        rows = lambda r, w: [int(np.shape(r)[0]) if np.ndim(r) == 2 and np.shape(r)[1] == w else -1 - int(np.ndim(r))] + flat(r)
+        cases.append(Case(spec, ln, lambda: rows(plane_normal_from_points(arg(), normalize=nz), 3), mode="both", trivial=trivial,
                           klass="fn.normal/%s/%s" % ("unit" if nz else "raw", sfx), scale=1.0 if nz else e2, rtol=ntol))
-        cases.append(Case(spec, le, lambda: [k] + flat(plane_equation_from_points(arg())), mode="both", trivial=trivial,
+        cases.append(Case(spec, le, lambda: rows(plane_equation_from_points(arg()), 4), mode="both", trivial=trivial,
                           klass="fn.equation/" + sfx,
                           compare=split_compare([(1, 1.0, 0.0)] + [(3, 1.0, ntol), (1, scale, ntol)] * k)))
     # normal_and_offset_from_plane_equations on arbitrary equations (pure slicing)
@@ -757,7 +765,11 @@ def make_fn(spec):
         tol = Fraction(ntol)
         N = np.asarray(plane_normal_from_points(arg(), normalize=True)).reshape(-1, 3)
         NR = np.asarray(plane_normal_from_points(arg(), normalize=False)).reshape(-1, 3)
-        EQ = np.asarray(plane_equation_from_points(arg())).reshape(-1, 4)
+        EQ = np.asarray(plane_equation_from_points(arg()))
+        if not single and (EQ.shape != (k, 4) or np.shape(plane_normal_from_points(arg(), normalize=True)) != (k, 3)):
+            out.append(("functions/stack-shape", "a stack of %d triangles gives equations of shape %s and normals of shape %s"
+                        % (k, EQ.shape, np.shape(plane_normal_from_points(arg(), normalize=True)))))
+        EQ = EQ.reshape(-1, 4)
         if N.dtype != np.float64 or EQ.dtype != np.float64:
             out.append(("functions/real-dtype", "dtypes %s %s" % (N.dtype, EQ.dtype)))
         if len(EQ):
